@@ -27,7 +27,7 @@ MANIFEST = dict(
 )
 
 RULE = ("sorted hierarchical key sequences with 1-3 page_by levels and/or subline_by, runs of every length relative to "
-        "the page capacity, adjacent groups whose key tuples differ while their concatenations coincide, nrow 3..30, new_page on/off, pageby_row column/first_row, pageby_header on/off, all header "
+        "the page capacity, numeric / boolean keys starting at 0 / 0.0 / False, adjacent groups whose key tuples differ while their concatenations coincide, nrow 3..30, new_page on/off, pageby_row column/first_row, pageby_header on/off, all header "
         "modes, '-----' divider groups; non-trivial = spanning rows shown, ≥ 2 pages and at least one group continuing "
         "across a page break or changing mid-page; distinct by (strategy, nrow, per-page block sequence)")
 
@@ -42,7 +42,8 @@ class C05(layfamily.Family):
         strategy = ["page_by", "page_by", "page_by_np_first", "page_by_np", "subline", "subline_page_by"][k % 6]
         collide = strategy.startswith("page_by") and k % 4 == 1
         spec, info = laygen.gen_spec(rng, strategy=strategy, nrow=rng.randint(3, 30), n=rng.randint(1, 45),
-                                     dividers=(k % 2 == 0), long_rows=(k % 5 == 0), collide=collide,
+                                     dividers=(k % 2 == 0 and k % 7 != 3), long_rows=(k % 5 == 0), collide=collide,
+                                     numeric_keys=(strategy.startswith("page_by") and k % 7 == 3 and not collide),
                                      levels=(rng.choice([2, 3]) if collide else None))
         if k % 3 != 0:
             # grouping columns need not be stored in the frame in page_by order, nor before the data columns
